@@ -813,10 +813,317 @@ pub fn run(r: &mut Runner) {
     );
     r.sub("differential", rule, (40_000, 2_000_000), || case_strategy(&[1, 7, 16]), run_case);
     r.sub(
+        "reader_vs_writer_schedules",
+        "two callers on one key over a parking backend (every backend call of the wrapper, reads included, parks before and after it lands; released by a generated schedule): a writer (put, conditional put with the current token, multipart, delete, copy / rename from another key) races a reader (get with every range kind and if_match / if_none_match naming the pre-race token, a garbage token, '*' or a list; date conditions; head; get_ranges). Oracle: the reader's complete answer (error variant, or which commit its token names + size + bytes + range) equals what the reference in-memory store answers when the read runs entirely before OR entirely after the write - never a mixture such as the new commit served under a precondition that names the old token. Non-trivial = backend steps of the two callers alternated and the read carries a precondition (or alternated twice)",
+        (30_000, 1_000_000),
+        race_strategy,
+        run_race_case,
+    );
+    r.sub(
         "differential_64k",
         "same generator with chunk size 64 KiB included (payloads up to 192 KiB)",
         (600, 20_000),
         || case_strategy(&[65536]),
         run_case,
     );
+}
+
+// ---------------------------------------------------------------------------
+// Two callers on one key under an owned schedule (T4): a reader racing a writer
+// ---------------------------------------------------------------------------
+
+use vf_core::sched::{Chooser, Hub, OP_ID, ParkStore, Phase};
+
+#[derive(Clone, Debug, Serialize, Deserialize)]
+pub enum RCond {
+    None,
+    V1,
+    Garbage,
+    Star,
+    ListWithV1,
+}
+
+#[derive(Clone, Debug, Serialize, Deserialize)]
+pub enum WOp2 {
+    Put { content: u8, size: u8 },
+    PutUpdateV1 { content: u8, size: u8 },
+    Multipart { content: u8, parts: Vec<u8> },
+    Delete,
+    CopyFromOther,
+    RenameFromOther,
+}
+
+#[derive(Clone, Debug, Serialize, Deserialize)]
+pub enum ROp2 {
+    Get { range: RangeSel, if_match: RCond, if_none_match: RCond, modified: DateSel, unmodified: DateSel },
+    Head,
+    GetRanges { ranges: Vec<(u16, u16)> },
+}
+
+#[derive(Clone, Debug, Serialize, Deserialize)]
+pub struct RaceCase {
+    pub kind: Kind,
+    pub chunk: u64,
+    pub v1: (u8, u8),
+    pub other: (u8, u8),
+    pub writer: WOp2,
+    pub reader: ROp2,
+    pub schedule: Vec<u16>,
+}
+
+pub fn race_strategy() -> impl Strategy<Value = RaceCase> {
+    let rc = || prop_oneof![3 => Just(RCond::None), 4 => Just(RCond::V1), 1 => Just(RCond::Garbage), 1 => Just(RCond::Star), 1 => Just(RCond::ListWithV1)];
+    let writer = prop_oneof![
+        4 => (0u8..3, 1u8..10).prop_map(|(content, size)| WOp2::Put { content, size }),
+        2 => (0u8..3, 1u8..10).prop_map(|(content, size)| WOp2::PutUpdateV1 { content, size }),
+        1 => (0u8..3, prop::collection::vec(1u8..10, 1..3)).prop_map(|(content, parts)| WOp2::Multipart { content, parts }),
+        2 => Just(WOp2::Delete),
+        1 => Just(WOp2::CopyFromOther),
+        1 => Just(WOp2::RenameFromOther),
+    ];
+    let reader = prop_oneof![
+        6 => (range_strategy(), rc(), rc(), date_strategy(), date_strategy()).prop_map(|(range, if_match, if_none_match, modified, unmodified)| ROp2::Get { range, if_match, if_none_match, modified, unmodified }),
+        1 => Just(ROp2::Head),
+        1 => prop::collection::vec((0u16..40, 1u16..60), 1..3).prop_map(|ranges| ROp2::GetRanges { ranges }),
+    ];
+    (
+        prop_oneof![Just(Kind::Meta), Just(Kind::Enc)],
+        prop::sample::select(&[1u64, 7, 16][..]),
+        (3u8..6, 1u8..10),
+        (6u8..9, 1u8..10),
+        writer,
+        reader,
+        prop::collection::vec(any::<u16>(), 0..60),
+    )
+        .prop_map(|(kind, chunk, v1, other, writer, reader, schedule)| RaceCase { kind, chunk, v1, other, writer, reader, schedule })
+}
+
+/// What the reader saw, with tokens reduced to which commit they name.
+#[derive(Clone, Debug, PartialEq)]
+enum Seen {
+    Err(EK),
+    /// (which commit the token names: 1 = v1, 2 = the writer's commit, 0 = something else; size; bytes; range)
+    Ok { commit: u8, size: u64, bytes: Vec<u8>, range: (u64, u64) },
+    Ranges(Vec<Vec<u8>>),
+}
+
+async fn do_writer(s: &dyn ObjectStore, w: &WOp2, chunk: u64, v1_tag: &Option<String>) -> Result<Option<String>, object_store::Error> {
+    let p = key_path(0);
+    let other = key_path(4);
+    match w {
+        WOp2::Put { content, size } => s.put(&p, PutPayload::from(payload(*content, size_for(*size, chunk)))).await.map(|r| r.e_tag),
+        WOp2::PutUpdateV1 { content, size } => s
+            .put_opts(&p, PutPayload::from(payload(*content, size_for(*size, chunk))), PutOptions { mode: PutMode::Update(UpdateVersion { e_tag: v1_tag.clone(), version: None }), ..Default::default() })
+            .await
+            .map(|r| r.e_tag),
+        WOp2::Multipart { content, parts } => {
+            let mut up = s.put_multipart(&p).await?;
+            for (i, sz) in parts.iter().enumerate() {
+                up.put_part(PutPayload::from(payload(content.wrapping_add(i as u8), size_for(*sz, chunk)))).await?;
+            }
+            up.complete().await.map(|r| r.e_tag)
+        }
+        WOp2::Delete => s.delete(&p).await.map(|_| None),
+        WOp2::CopyFromOther => s.copy(&other, &p).await.map(|_| None),
+        WOp2::RenameFromOther => s.rename(&other, &p).await.map(|_| None),
+    }
+}
+
+fn rcond(c: &RCond, v1: &Option<String>) -> Option<String> {
+    let t = v1.clone().unwrap_or_else(|| "\"none\"".into());
+    match c {
+        RCond::None => None,
+        RCond::V1 => Some(t),
+        RCond::Garbage => Some("\"garbage-token\"".into()),
+        RCond::Star => Some("*".into()),
+        RCond::ListWithV1 => Some(format!("\"zzz\", {t}")),
+    }
+}
+
+async fn do_reader(s: &dyn ObjectStore, r: &ROp2, v1_tag: &Option<String>, v1_lm: DateTime<Utc>) -> Result<(Option<String>, u64, Vec<u8>, (u64, u64), Vec<Vec<u8>>), object_store::Error> {
+    let p = key_path(0);
+    match r {
+        ROp2::Get { range, if_match, if_none_match, modified, unmodified } => {
+            let fake = Some(ObjectMeta { location: p.clone(), last_modified: v1_lm, size: 0, e_tag: None, version: None });
+            let opts = GetOptions {
+                if_match: rcond(if_match, v1_tag),
+                if_none_match: rcond(if_none_match, v1_tag),
+                if_modified_since: date_value(modified, &fake),
+                if_unmodified_since: date_value(unmodified, &fake),
+                range: range_value(range),
+                version: None,
+                head: false,
+                extensions: Default::default(),
+            };
+            let g = s.get_opts(&p, opts).await?;
+            let (tag, size, range) = (g.meta.e_tag.clone(), g.meta.size, (g.range.start, g.range.end));
+            let b = g.bytes().await?;
+            Ok((tag, size, b.to_vec(), range, vec![]))
+        }
+        ROp2::Head => {
+            let m = s.head(&p).await?;
+            Ok((m.e_tag, m.size, vec![], (0, 0), vec![]))
+        }
+        ROp2::GetRanges { ranges } => {
+            let rs: Vec<std::ops::Range<u64>> = ranges.iter().map(|(a, b)| *a as u64..(*a as u64 + *b as u64)).collect();
+            let v = s.get_ranges(&p, &rs).await?;
+            Ok((None, 0, vec![], (0, 0), v.into_iter().map(|b| b.to_vec()).collect()))
+        }
+    }
+}
+
+/// The reference's answer for the reader, before (`after_writer = false`) or after the writer ran.
+async fn reference_answer(case: &RaceCase, after_writer: bool) -> (Seen, bool) {
+    let s = InMemory::new();
+    let p = key_path(0);
+    let v1 = s.put(&p, PutPayload::from(payload(case.v1.0, size_for(case.v1.1, case.chunk)))).await.unwrap().e_tag;
+    s.put(&key_path(4), PutPayload::from(payload(case.other.0, size_for(case.other.1, case.chunk)))).await.unwrap();
+    let lm = s.head(&p).await.unwrap().last_modified;
+    let mut v2: Option<String> = None;
+    let mut writer_ok = true;
+    if after_writer {
+        match do_writer(&s, &case.writer, case.chunk, &v1).await {
+            Ok(t) => {
+                v2 = match t {
+                    Some(t) => Some(t),
+                    None => s.head(&p).await.ok().and_then(|m| m.e_tag),
+                }
+            }
+            Err(_) => writer_ok = false,
+        }
+    }
+    let seen = match do_reader(&s, &case.reader, &v1, lm).await {
+        Err(e) => Seen::Err(ek(&e)),
+        Ok((tag, size, bytes, range, ranges)) => {
+            if matches!(case.reader, ROp2::GetRanges { .. }) {
+                Seen::Ranges(ranges)
+            } else {
+                let commit = if tag == v1 { 1 } else if tag == v2 && v2.is_some() { 2 } else { 0 };
+                Seen::Ok { commit, size, bytes, range }
+            }
+        }
+    };
+    (seen, writer_ok)
+}
+
+pub fn run_race_case(case: &RaceCase, ctx: &mut CaseCtx) -> Result<(), String> {
+    install_clock(1_700_000_000_000);
+    let mut ch = Chooser::from_random(case.schedule.clone());
+    let rt = tokio::runtime::Builder::new_current_thread().enable_time().build().unwrap();
+    let local = tokio::task::LocalSet::new();
+    local.block_on(&rt, async {
+        let mem = Arc::new(InMemory::new());
+        let hub = Hub::new();
+        let parked: Arc<dyn ObjectStore> = Arc::new(ParkStore::new(mem.clone(), hub.clone()));
+        let wrapper = Wrapper::build(case.kind, case.chunk, parked);
+        let store = wrapper.store();
+        let p = key_path(0);
+        let v1_tag = store.put(&p, PutPayload::from(payload(case.v1.0, size_for(case.v1.1, case.chunk)))).await.map_err(|e| e.to_string())?.e_tag;
+        store.put(&key_path(4), PutPayload::from(payload(case.other.0, size_for(case.other.1, case.chunk)))).await.map_err(|e| e.to_string())?;
+        let v1_lm = store.head(&p).await.map_err(|e| e.to_string())?.last_modified;
+        // warm or cold metadata cache for the racing callers: both occur (the setup calls warmed it)
+        hub.set_park_reads(true);
+        hub.set_enabled(true);
+        let done = Arc::new(std::sync::atomic::AtomicU64::new(0));
+        let wres: Arc<std::sync::Mutex<Option<Result<Option<String>, EK>>>> = Arc::new(std::sync::Mutex::new(None));
+        let rres: Arc<std::sync::Mutex<Option<Result<(Option<String>, u64, Vec<u8>, (u64, u64), Vec<Vec<u8>>), EK>>>> = Arc::new(std::sync::Mutex::new(None));
+        let mut handles = vec![];
+        {
+            let (store, hub2, done, wres, w, chunk, v1) = (store.clone(), hub.clone(), done.clone(), wres.clone(), case.writer.clone(), case.chunk, v1_tag.clone());
+            handles.push(tokio::task::spawn_local(OP_ID.scope(0, async move {
+                hub2.park(vf_core::store::Op::Get, "start", Phase::Start).await;
+                let r = do_writer(store.as_ref(), &w, chunk, &v1).await.map_err(|e| ek(&e));
+                *wres.lock().unwrap() = Some(r);
+                done.fetch_add(1, std::sync::atomic::Ordering::SeqCst);
+            })));
+        }
+        {
+            let (store, hub2, done, rres, r, v1) = (store.clone(), hub.clone(), done.clone(), rres.clone(), case.reader.clone(), v1_tag.clone());
+            handles.push(tokio::task::spawn_local(OP_ID.scope(1, async move {
+                hub2.park(vf_core::store::Op::Get, "start", Phase::Start).await;
+                let x = do_reader(store.as_ref(), &r, &v1, v1_lm).await.map_err(|e| ek(&e));
+                *rres.lock().unwrap() = Some(x);
+                done.fetch_add(1, std::sync::atomic::Ordering::SeqCst);
+            })));
+        }
+        let progress = {
+            let done = done.clone();
+            move || done.load(std::sync::atomic::Ordering::SeqCst)
+        };
+        let mut steps = 0u64;
+        let mut alternations = 0u64;
+        let mut last: Option<u32> = None;
+        loop {
+            vf_core::sched::quiesce(&hub, &progress).await;
+            let pk = hub.parked();
+            if pk.is_empty() {
+                if progress() >= 2 {
+                    break;
+                }
+                hub.release_all(true);
+                return Err("inconclusive: nothing is parked but the callers are unfinished".into());
+            }
+            let c = ch.choose(pk.len());
+            if pk[c].phase != Phase::Start {
+                if last.is_some() && last != Some(pk[c].task) {
+                    alternations += 1;
+                }
+                last = Some(pk[c].task);
+            }
+            hub.release(pk[c].id, true);
+            steps += 1;
+            if steps > 3000 {
+                hub.release_all(true);
+                return Err("inconclusive: schedule did not terminate".into());
+            }
+        }
+        for h in handles {
+            let _ = h.await;
+        }
+        hub.set_enabled(false);
+        let w = wres.lock().unwrap().clone().unwrap();
+        let r = rres.lock().unwrap().clone().unwrap();
+        // the writer's commit token on the wrapper
+        let v2_tag: Option<String> = match &w {
+            Ok(Some(t)) => Some(t.clone()),
+            Ok(None) => store.head(&p).await.ok().and_then(|m| m.e_tag),
+            Err(_) => None,
+        };
+        let seen = match r {
+            Err(k) => Seen::Err(k),
+            Ok((tag, size, bytes, range, ranges)) => {
+                if matches!(case.reader, ROp2::GetRanges { .. }) {
+                    Seen::Ranges(ranges)
+                } else {
+                    let commit = if tag == v1_tag { 1 } else if v2_tag.is_some() && tag == v2_tag { 2 } else { 0 };
+                    Seen::Ok { commit, size, bytes, range }
+                }
+            }
+        };
+        // the reference in both serial orders
+        let (before, _) = reference_answer(case, false).await;
+        let (after, ref_writer_ok) = reference_answer(case, true).await;
+        let same = |a: &Seen, b: &Seen| -> bool {
+            match (a, b) {
+                (Seen::Err(EK::Other), Seen::Err(_)) | (Seen::Err(_), Seen::Err(EK::Other)) => true,
+                _ => a == b,
+            }
+        };
+        if !same(&before, &seen) && !same(&after, &seen) {
+            // head-style answers carry no bytes on some stores: compare without them
+            return Err(format!(
+                "a {:?} racing {:?} on one key answered {seen:?}; the reference store answers {before:?} when the read runs first and {after:?} when the write runs first",
+                case.reader, case.writer
+            ));
+        }
+        if w.is_ok() != ref_writer_ok && !matches!(case.writer, WOp2::Delete) {
+            return Err(format!("the writer {:?} answered ok={} but the reference ok={ref_writer_ok}", case.writer, w.is_ok()));
+        }
+        ctx.nontrivial = alternations >= 1 && !matches!((&case.reader, ), (ROp2::Get { if_match: RCond::None, if_none_match: RCond::None, modified: DateSel::None, unmodified: DateSel::None, .. },)) || alternations >= 2;
+        if before != after {
+            ctx.label("serial_orders_answer_differently");
+        }
+        ctx.count("decision_points", steps);
+        Ok(())
+    })
 }
